@@ -75,11 +75,20 @@ static void run_case(int limit_s) {
   }
   for (;;) { ssize_t k = __real_read(pe[0], errbuf + en, sizeof errbuf - 1 - en); if (k <= 0) break; en += (size_t)k; }
   errbuf[en] = 0; close(pe[0]);
+  if (getenv("VDRV_SHOWERR")) fprintf(stderr, "%s\n", errbuf);      /* debugging aid: the child's stderr */
   /* a child that dies may leave an unterminated partial line behind: the verdict starts on a line of its own */
   printf("\n");
   if (timed_out) printf("verdict timeout\n");
   else if (strstr(errbuf, "ERROR: AddressSanitizer")) { char s[700]; summarize_asan(errbuf, s, sizeof s); printf("verdict %s\n", s); }
-  else if (WIFSIGNALED(status)) printf("verdict signal %d\n", WTERMSIG(status));
+  else if (WIFSIGNALED(status)) {
+    /* a library that aborts says why on stderr: keep the last line as part of the verdict */
+    char why[64] = ""; size_t L = strlen(errbuf), a, b, k = 0;
+    while (L && (errbuf[L - 1] == '\n' || errbuf[L - 1] == ' ')) L--;
+    a = L; while (a && errbuf[a - 1] != '\n') a--;
+    for (b = a; b < L && k < sizeof why - 1; b++) why[k++] = (errbuf[b] == ' ') ? '_' : errbuf[b];
+    why[k] = 0;
+    printf("verdict signal %d %s\n", WTERMSIG(status), why);
+  }
   else if (WIFEXITED(status) && WEXITSTATUS(status) != 0) printf("verdict exit %d\n", WEXITSTATUS(status));
   else printf("verdict ok\n");
   fflush(stdout);
